@@ -19,6 +19,36 @@ CLAIMED = {
             "Trusted: the reference model/interpreter in /verif/esim/driver.py, SimFile (A1: one write "
             "call is atomic), json.loads. Pre-emption only at Python line boundaries in eliot's frames.",
             "DESIGN.md 3/C01"),
+    "C02": ("deterministic simulation with destination-fault injection: seeded programs x interleavings x "
+            "failure masks of the other destinations; placement invariants checked on what a healthy tap saw",
+            "Seeded exploration of programs in SEQ/THREADS/ASYNC worlds with 0-3 destinations raising on drawn "
+            "masks; on the tap's records: field types, run-wide uniqueness of (task_uuid, task_level), positions "
+            "1..n with start at 1 and end at n, children extend parents, first-use order equals level order.",
+            "Trusted: Tap/FaultyDest (harness), call attribution by calling thread, the interpreter's model for "
+            "'action finished' and reserved task ids. One open known finding (known_findings.json).",
+            "DESIGN.md 3/C02"),
+    "C03": ("deterministic simulation with fault injection: body exits by raise of 14 exception classes / "
+            "asyncio cancellation at drawn virtual times / generator close, raising extractors; exact accounting "
+            "and refinement against the reference model",
+            "Seeded exploration (SEQ + virtual-time ASYNC): exactly one start and one end per action at a tap, "
+            "truthful status, class path, text, nearest-MRO extractor fields, identity of the propagated "
+            "exception object, no messages from repeated finish().",
+            "Trusted: interpreter/model; exception identity is observed in the interpreter's own frames.",
+            "DESIGN.md 3/C03"),
+    "C04": ("deterministic simulation: seeded nestings of the three scoping constructs with every exit kind "
+            "(incl. cancellation and generator close) in SEQ and virtual-time ASYNC worlds; identity oracle on "
+            "current_action() after every step",
+            "Seeded exploration: after every operation and at every scope entry/exit current_action() must be "
+            "the very Action object on top of the model's stack; parsed forest of the tap equals the model forest.",
+            "Trusted: interpreter/model stack discipline.",
+            "DESIGN.md 3/C04"),
+    "C05": ("deterministic simulation over schedules: baton-passed real threads pre-empted at eliot source lines, "
+            "virtual-time asyncio tasks with drawn delays; per-actor context identity oracle, forest refinement, "
+            "cross-schedule equality of canonical forests",
+            "Seeded exploration of interleavings of structured concurrent programs (threads, preserve_context, "
+            "serialize/continue_task, asyncio tasks); 10% of programs re-executed under 3 more schedules.",
+            "Trusted: scheduler (one baton), interpreter/model. Pre-emption at Python line boundaries only.",
+            "DESIGN.md 3/C05"),
 }
 
 NOT_YET = "check not built yet in this commit (planned, see DESIGN.md section 3)"
